@@ -128,7 +128,7 @@ inductive BookRes where
   | panic
   | err
   | ok (b : Book)
-  deriving Repr
+  deriving DecidableEq, Repr
 
 /-- `parseProxyBook` over the entries in the order the map iteration visits them -/
 def parseProxyBook (resolve : String → Str → Option Str) : List Entry → Book → BookRes
